@@ -420,6 +420,27 @@ func entityTerm(fn *ssa.Function) (term string, kind string) {
 	return fmt.Sprintf("F %s %s", hx(fn.Pkg.Pkg.Path()), hx(name)), "func"
 }
 
+// fnID returns the generator's entity ID: the first `println(<int constant >= 7000000>)` of the body (0 = none)
+func fnID(fn *ssa.Function) int64 {
+	for _, b := range fn.Blocks {
+		for _, in := range b.Instrs {
+			c, ok := in.(*ssa.Call)
+			if !ok {
+				continue
+			}
+			if bi, ok := c.Call.Value.(*ssa.Builtin); !ok || bi.Name() != "println" || len(c.Call.Args) != 1 {
+				continue
+			}
+			if k, ok := c.Call.Args[0].(*ssa.Const); ok && k.Value != nil {
+				if v := k.Int64(); v >= 7000000 && v < 8000000 {
+					return v
+				}
+			}
+		}
+	}
+	return 0
+}
+
 // ---------------------------------------------------------------- source route
 
 type orderFile struct {
@@ -531,7 +552,7 @@ func load(dir string) {
 				cols = append(cols, fmt.Sprintf("%s=%s=%d", hx(cur.Path()), hx(name), ftype))
 			}()
 		}
-		fmt.Fprintf(w, "E\t%s\t%s\t%s\t%s\n", kind, term, hx(fn.String()), strings.Join(cols, ","))
+		fmt.Fprintf(w, "E\t%s\t%s\t%s\t%s\t%d\n", kind, term, hx(fn.String()), strings.Join(cols, ","), fnID(fn))
 	}
 	for _, tp := range tpkgs {
 		sp := prog.Package(tp)
@@ -553,7 +574,7 @@ func load(dir string) {
 				}
 				cols = append(cols, fmt.Sprintf("%s=%s=%d.%d", hx(cur.Path()), hx(name), vtype, d))
 			}
-			fmt.Fprintf(w, "E\tglobal\tG %s %s\t%s\t%s\n", hx(tp.Path()), hx(n), hx(g.String()), strings.Join(cols, ","))
+			fmt.Fprintf(w, "E\tglobal\tG %s %s\t%s\t%s\t0\n", hx(tp.Path()), hx(n), hx(g.String()), strings.Join(cols, ","))
 		}
 	}
 }
